@@ -124,7 +124,9 @@ pub fn o_unknown(input: &[u8], p: &P) -> Out {
 		}
 		compare_frames(&g.frames, &rg, rg.rows.len(), true).map_err(|(k, m)| e(&format!("model-{}", k), m))?;
 		// the debug option (every event dumped to a directory, unknown ones included) changes nothing
-		if input.len() < 6000 && matches!(p.class, "pair" | "triple") {
+		// (every 4th pair / triple insertion by content hash in the quick tier, every 32nd of the far larger thorough
+		// set: the option writes a file per event)
+		if input.len() < 6000 && matches!(p.class, "pair" | "triple") && xx(input) % (if ctx().quick() { 4 } else { 32 }) == 0 {
 			let gd = read_slp_debug(input, false, false).map_err(|f| e(&format!("read-failed-with-debug:{}", f.key()), format!("reading with the debug option failed with {} unknown events present: {}", rg.unknown_events, f.describe())))?;
 			games_equal(&g, &gd, false).map_err(|m| e("game-differs-with-debug", m))?;
 		}
